@@ -9,6 +9,12 @@ Bounded stand-in for C15: version conversion 1.0 -> 1.1 keeps the content and yi
 * run_convert(tier, seed): VersionConverter(src).convert(backend) for src in {file path, StringIO}
   x backend in {XML, JSON, YAML}, result checked against the model through XMLReader(ignore_errors=False).
 * run_write(tier, seed): VersionConverter.write_to_file writes only the requested file.
+* run_history(tier, seed): the state of the source object (StringIO at the start / in the middle / at the end after
+  write() or read(), file by absolute / relative / unusual name or read-only, open file handle) x the usage history
+  of the converter(s) over that one source object (convert twice, convert and write_to_file in both orders, str()
+  or a refused backend first, two converters, the caller rewriting or repositioning the source in between): every
+  result obeys the model, repeated results carry the same content, and after every single library call the source
+  is what it was: content AND read position AND closed state AND file mode / modification time / directory.
 
 Abstract tree
     doc  = {'attrs': [(tag, text), ...], 'id': idspec, 'secs': [sec, ...]}
@@ -36,7 +42,9 @@ import io
 import itertools
 import json
 import os
+import pathlib
 import random
+import re
 import shutil
 import uuid
 
@@ -681,7 +689,7 @@ def _match_value(e, g, dtype):
     return same_scalar(e, g)
 
 
-def check_case(ck, doc, fmt, src, out, log, wit):
+def check_case(ck, doc, fmt, src, out, log, wit, keep=None):
     """out: converted XML string; log: conversion_log. Compares with the model.
     Returns the observed content {(path, field): (value, label of the native scalars behind it)} for the
     comparison between the source formats, or None when the result could not be loaded."""
@@ -697,6 +705,8 @@ def check_case(ck, doc, fmt, src, out, log, wit):
                     'XMLReader(ignore_errors=False) raised %s: %s' % (type(res).__name__, res))
         return None
     loaded = res
+    if keep is not None:
+        keep['loaded'] = loaded
     obs = {}
 
     check_id(ck, 'document', doc['id'], loaded._id, wit)
@@ -1418,6 +1428,12 @@ def _sha(path):
         return hashlib.sha256(f.read()).hexdigest()
 
 
+def _file_meta(path):
+    """What the file system tells about a source file beside its content."""
+    st = os.stat(path)
+    return [oct(st.st_mode), st.st_mtime_ns, sorted(os.listdir(os.path.dirname(os.path.abspath(path))))]
+
+
 def _convert(src, fmt):
     vc = VersionConverter(src)
     out = vc.convert(fmt)
@@ -1430,7 +1446,8 @@ def run_convert(tier, seed):
         rule='one case = (generated 1.0 document, source format XML/JSON/YAML, source kind file/StringIO (+ StringIO with XML declaration for 4 groups; '
              '+ other layouts of the same source - JSON/YAML keys sorted and empty lists omitted / keys reverse sorted and empty lists '
              'written out, XML one element per line - for 11 groups and every 7th other document (quick) / all documents (thorough))); '
-             'each document is also compared across its three source formats (formats-agree); '
+             'each document is also compared across its three source formats (formats-agree); the source is compared '
+             'before / after: StringIO content, read position, closed state; file content, mode, modification time, directory; '
              'documents: exhaustive placements of the six value attributes over 1..3 value elements, '
              'exhaustive value texts (pool of 12) for 1..2 and (pool of 4/8) for 3 value elements, exhaustive sibling '
              'name sequences (alphabet 3/4, length <= 3/4) for properties / top sections / sub sections / all levels, '
@@ -1465,12 +1482,15 @@ def run_convert(tier, seed):
                     col.case(cls_key=(key, fmt, src), sample='%r %s %s' % (key, fmt, src))
                     if src == 'file':
                         wit = {'doc': doc, 'format': fmt, 'source': src, 'text': text if len(text) < 1500 else None}
-                        before = _sha(path)
+                        before, meta = _sha(path), _file_meta(path)
                         st, res = h.call(_convert, path, fmt)
                         if not os.path.exists(path) or _sha(path) != before:
                             ck.fail('source-unchanged', 'file', wit, 'source file changed by the conversion')
                             with open(path, 'w', encoding='utf-8') as f:
                                 f.write(text)
+                        elif _file_meta(path) != meta:
+                            ck.fail('source-unchanged', 'file-mode-or-time', wit, 'source file (mode, mtime_ns, directory) '
+                                    '%r became %r' % (meta, _file_meta(path)))
                     else:
                         stext = text
                         if fmt == 'XML':
@@ -1489,6 +1509,9 @@ def run_convert(tier, seed):
                         st, res = h.call(_convert, sio, fmt)
                         if sio.closed or sio.getvalue() != stext:
                             ck.fail('source-unchanged', 'stringio', wit, 'source StringIO changed by the conversion')
+                        elif sio.tell() != 0:
+                            ck.fail('source-unchanged', 'stringio-position', wit, 'read position of the source StringIO '
+                                    'moved from 0 to %d (of %d) by the conversion' % (sio.tell(), len(stext)))
                     if nameless:
                         # a Section without name is taken to be outside "well-formed 1.0": refusing it is allowed,
                         # only "the source is never modified" (above) is checked
@@ -1543,7 +1566,7 @@ def run_write(tier, seed):
                     src = os.path.join(case, 'in' + ext)
                     with open(src, 'w', encoding='utf-8') as f:
                         f.write(text)
-                    before = _sha(src)
+                    before, meta = _sha(src), _file_meta(src)
                     col.case(cls_key=(key, fmt, target), sample='%r %s %s' % (key, fmt, target))
                     wit = {'doc': doc, 'format': fmt, 'target': target}
                     st, res = h.call(lambda: VersionConverter(src).write_to_file(os.path.join(case, 'out', target), fmt))
@@ -1559,6 +1582,9 @@ def run_write(tier, seed):
                         continue
                     if _sha(src) != before:
                         ck.fail('source-unchanged', 'file', wit, 'source changed')
+                    elif _file_meta(src) != meta:
+                        ck.fail('source-unchanged', 'file-mode-or-time', wit, 'source file (mode, mtime_ns, directory) '
+                                '%r became %r' % (meta, _file_meta(src)))
                     st, res = h.call(lambda: XMLReader(ignore_errors=False, show_warnings=False).from_file(
                         os.path.join(case, 'out', want)))
                     if st == 'exc':
@@ -1569,3 +1595,355 @@ def run_write(tier, seed):
     res = col.result()
     res['failure_classes'] = ck.summary()
     return res
+
+
+# ---------------------------------------------------------------------------------------------
+# source state x usage history
+# ---------------------------------------------------------------------------------------------
+# The statement quantifies over StringIO and file input and ends with "the source is never modified". A source
+# object has more state than its content (a stream has a read position and can be closed, a file has a mode, a
+# modification time and neighbours in its directory), and a converter / a source object can be used more than once.
+# One case = (document, source format, source kind = how the source object looks when the converter gets it,
+# history = what is done with the converter(s) and the source object). After EVERY library call the whole state of
+# the source is compared with the state before that call; every result is compared with the model of the document
+# the source holds at that moment; results for the same source content are compared with each other.
+
+SRC_KINDS_FULL = ('stringio-at-start', 'stringio-in-the-middle', 'stringio-at-end-after-write',
+                  'stringio-at-end-after-read', 'file')
+SRC_KINDS_SHORT = ('file-read-only', 'file-relative-path', 'file-name-with-space-and-non-ascii')
+# kinds the statement does not name: a refusal is accepted, a result is checked, the source stays untouched anyway
+SRC_KINDS_OPTIONAL = ('open-handle-at-start', 'open-handle-in-the-middle', 'file-as-pathlib-path')
+
+# step: ('new', i) another converter over the same source object; ('convert', i) / ('write', i) / ('str', i) /
+# ('refused', i) converter i: convert(fmt) / write_to_file(target, fmt) / str() / convert(<a backend that is not the
+# source's format>); ('rewrite',) the CALLER replaces the content of the source object by another document;
+# ('reposition',) the CALLER moves the read position of the stream
+HISTORIES = (
+    ('convert', [('convert', 0)]),
+    ('convert-twice', [('convert', 0), ('convert', 0)]),
+    ('convert-then-write', [('convert', 0), ('write', 0)]),
+    ('write-then-convert', [('write', 0), ('convert', 0)]),
+    ('write-twice', [('write', 0), ('write', 0)]),
+    ('str-then-convert', [('str', 0), ('convert', 0)]),
+    ('refused-backend-then-convert', [('refused', 0), ('convert', 0)]),
+    ('two-converters', [('new', 1), ('convert', 0), ('convert', 1)]),
+    ('two-converters-interleaved', [('convert', 0), ('new', 1), ('write', 1), ('convert', 0), ('convert', 1)]),
+    ('convert-rewrite-convert', [('convert', 0), ('rewrite',), ('convert', 0), ('new', 1), ('convert', 1)]),
+    ('convert-reposition-convert', [('convert', 0), ('reposition',), ('convert', 0)]),
+)
+HISTORIES_SHORT = ('convert', 'convert-twice', 'convert-then-write')
+HISTORIES_OPTIONAL = ('convert', 'convert-twice')
+
+HIST_RICH = D(
+    [S('a',
+       [P('p', [V('1', ('unit', 'mV'), ('type', 'int'), ('uncertainty', '0.5'), ('filename', 'raw.dat'),
+                  ('checksum', 'histdropsum')), V('2', ('unit', 'mV')), V('3')],
+          [('definition', 'pdef'), ('mapping', 'histdropmap')], id=UUID_A),
+        P('p', [V('x', ('type', 'binary'))], id='not-a-uuid'),
+        P(None, [V('9')], [('definition', 'histanonprop')]),
+        P('p-2', [V('µV a,b'), V('[1]')], [('dependency', 'dep'), ('dependency_value', 'depval')])],
+       [S('c', [P('q', [V('1.5', ('type', 'float'), ('reference', 'ref one'))])], id=UUID_B.upper()), S('c'),
+        S('c-2', attrs=[('foo', 'histdropsec')])],
+       attrs=[('definition', 'sdef'), ('reference', 'sref')], id=''),
+     S('a', type_='setup/daq'), S('b', [], [S('a')])],
+    attrs=[('author', 'me'), ('foo', 'histdropdoc'), ('date', '2008-07-07'), ('version', 'v1.13')], id=UUID_A)
+HIST_NATIVE = D([S('s', [P('p', [V(N(0), ('type', 'int'), ('uncertainty', N(0))), V(N(1)), V(N(0))]),
+                         P('q', [V(N(False), ('type', 'boolean')), V(N(True))]),
+                         P('r', [V(N(0.0), ('unit', N(0))), V(N(2.5))])])])
+HIST_MINIMAL = D([S('s', [P('p', [V('1')])])])
+HIST_OTHER = D([S('other', [P('z', [V('42', ('unit', 'kg'), ('type', 'int'))], [('synonym', 'histdropother')])],
+                  [S('deep')])], attrs=[('author', 'you')])
+HIST_FIXED = ((('history-doc', 'rich'), HIST_RICH), (('history-doc', 'native-scalars'), HIST_NATIVE),
+              (('history-doc', 'minimal'), HIST_MINIMAL), (('history-doc', 'empty'), D([])))
+
+
+class Source(object):
+    """One source object as a caller hands it to VersionConverter, with everything that can be observed of it."""
+
+    def __init__(self, kind, root, ext):
+        self.kind = kind
+        self.group = 'stringio' if kind.startswith('stringio') else ('file' if kind.startswith('file') else 'open-handle')
+        self.dir = os.path.join(root, 'in')
+        name = 'src é 日' + ext if kind == 'file-name-with-space-and-non-ascii' else 'src' + ext
+        self.path = os.path.join(self.dir, name)
+        self.obj = None
+        self.cwd = None
+        self.optional = kind in SRC_KINDS_OPTIONAL
+        if kind == 'file-as-pathlib-path':
+            self.obj = pathlib.Path(self.path)
+        elif kind == 'file-relative-path':
+            self.cwd = os.getcwd()
+            os.chdir(root)
+            self.obj = os.path.join('in', name)
+        elif self.group == 'file':
+            self.obj = self.path
+
+    def put(self, text):
+        """The caller fills (or refills) the source with `text` and leaves it in the state the kind names."""
+        if self.group == 'stringio':
+            if self.kind == 'stringio-at-end-after-write':
+                if self.obj is None:
+                    self.obj = io.StringIO()
+                else:
+                    self.obj.seek(0)
+                    self.obj.truncate()
+                self.obj.write(text)
+                return
+            if self.obj is None:
+                self.obj = io.StringIO(text)
+            else:
+                self.obj.seek(0)
+                self.obj.truncate()
+                self.obj.write(text)
+                self.obj.seek(0)
+            if self.kind == 'stringio-in-the-middle':
+                self.obj.seek(len(text) // 2)
+            elif self.kind == 'stringio-at-end-after-read':
+                self.obj.read()
+            return
+        if self.group == 'open-handle' and self.obj is not None:
+            self.obj.close()
+        if os.path.exists(self.path):
+            os.chmod(self.path, 0o644)
+        with open(self.path, 'w', encoding='utf-8') as f:
+            f.write(text)
+        if self.kind == 'file-read-only':
+            os.chmod(self.path, 0o444)
+        if self.group == 'open-handle':
+            self.obj = open(self.path, 'r', encoding='utf-8')
+            if self.kind == 'open-handle-in-the-middle':
+                self.obj.read(len(text) // 2)
+
+    def reposition(self):
+        """The caller moves the read position: to the end, from the end to the start."""
+        size = len(self.obj.getvalue())
+        self.obj.seek(0 if self.obj.tell() == size else size)
+
+    def state(self):
+        """Everything observable of the source, component by component."""
+        if self.group == 'stringio':
+            if self.obj.closed:
+                return {'closed': True, 'content': None, 'position': None}
+            return {'closed': False, 'content': self.obj.getvalue(), 'position': self.obj.tell()}
+        out = {}
+        if os.path.isfile(self.path):
+            st = os.stat(self.path)
+            out.update({'content': _sha(self.path), 'mode': oct(st.st_mode), 'modification-time': st.st_mtime_ns})
+        else:
+            out.update({'content': None, 'mode': None, 'modification-time': None})
+        out['directory'] = sorted(os.listdir(self.dir))
+        if self.group == 'open-handle':
+            out['closed'] = self.obj.closed
+            out['position'] = None if self.obj.closed else self.obj.tell()
+            out['handle-mode'] = self.obj.mode
+        return out
+
+    def close(self):
+        if self.cwd is not None:
+            os.chdir(self.cwd)
+        if self.group == 'open-handle' and self.obj is not None:
+            self.obj.close()
+
+
+_ID_RE = re.compile(r'<id>[^<]*</id>')
+_DECL_RE = re.compile(r'^\s*<\?xml[^>]*\?>\s*')
+
+
+def _normal_decl(text):
+    """The content of a written file without the XML declaration in front."""
+    return _DECL_RE.sub('', text, count=1)
+
+
+def _normal(xml):
+    """The converted text without what may differ between two conversions of one document: generated ids, an XML
+    declaration in front."""
+    return _ID_RE.sub('<id/>', _normal_decl(xml)).strip()
+
+
+def history_docs(tier, seed):
+    """The fixed documents + evenly spaced ones out of the shared enumeration (Sections without name left out)."""
+    for item in HIST_FIXED:
+        yield item
+    pool = [(k, d) for k, d in all_cases(tier, seed) if 'section-without-name' not in doc_features(d, 'XML', 'file')]
+    n = 5 if tier == 'quick' else 100
+    step = max(1, len(pool) // n)
+    for i in range(step // 2, len(pool), step):
+        yield pool[i]
+
+
+def run_history(tier, seed):
+    col = h.Collector(
+        'C15.history',
+        rule='one case = (document: 4 fixed ones - rich (clashing names, valid / malformed / empty ids, dropped elements at '
+             'every level, unnamed Property, binary, non ASCII), native JSON/YAML scalars, minimal, empty - + 5 (quick) / 100 '
+             '(thorough) evenly spaced documents of the C15.convert enumeration; source format XML/JSON/YAML; source kind: '
+             'StringIO with the read position at the start / in the middle / at the end after write() / at the end after '
+             'read(), file path; usage history: convert | convert twice | convert, write_to_file | write_to_file, convert | '
+             'write_to_file twice | str(), convert | convert(<other backend>, refused), convert | two converters over one '
+             'source object | two converters interleaved | convert, caller replaces the source content by another document, '
+             'convert (old and new converter) | convert, caller moves the read position, convert (streams only)); + source '
+             'kinds read-only file / relative path / file name with space and non ASCII characters x 3 histories; + open '
+             'file handle at the start / in the middle, pathlib.Path x 2 histories (a refusal is accepted, a result is '
+             'checked). After every library call (constructor included): source content, read position, closed state, file mode, modification time, directory listing as '
+             'before the call. Every result is checked against the model of the document the source holds at that moment (a '
+             'result for the former content after the caller replaced it: current-content-converted); '
+             'results for the same source content carry the same content. class key = (document key, format, kind, history)',
+        exhaustive=False)
+    ck = Checker(col, per_class=2)
+    root = WORK + '_h'
+    shutil.rmtree(root, ignore_errors=True)
+    os.makedirs(root)
+    home = os.getcwd()
+    case = os.path.join(root, 'case')
+    os.makedirs(os.path.join(case, 'in'))
+    os.makedirs(os.path.join(case, 'out'))
+    hist = dict(HISTORIES)
+    plan = [(k, n) for k in SRC_KINDS_FULL for n, _ in HISTORIES] + \
+           [(k, n) for k in SRC_KINDS_SHORT for n in HISTORIES_SHORT] + \
+           [(k, n) for k in SRC_KINDS_OPTIONAL for n in HISTORIES_OPTIONAL]
+    try:
+        for key, doc in history_docs(tier, seed):
+            for fmt in ('XML', 'JSON', 'YAML'):
+                printer, ext = PRINTERS[fmt]
+                texts = {}
+                for which, d in (('doc', doc), ('other', HIST_OTHER)):
+                    texts[which] = printer(d)
+                    texts[which + '-stream'] = to_xml(d, decl='') if fmt == 'XML' else texts[which]
+                for kind_, hname in plan:
+                    if hname == 'convert-reposition-convert' and not kind_.startswith('stringio'):
+                        continue
+                    col.case(cls_key=(key, fmt, kind_, hname), sample='%r %s %s %s' % (key, fmt, kind_, hname))
+                    for sub in ('in', 'out'):           # (the two directories are reused, their content is not)
+                        for name in os.listdir(os.path.join(case, sub)):
+                            os.chmod(os.path.join(case, sub, name), 0o644)
+                            os.remove(os.path.join(case, sub, name))
+                    src = Source(kind_, case, ext)
+                    try:
+                        _one_history(ck, src, hname, hist[hname], key, doc, fmt, texts, case)
+                    finally:
+                        src.close()
+                        os.chdir(home)
+    finally:
+        os.chdir(home)
+        shutil.rmtree(root, ignore_errors=True)
+    res = col.result()
+    res['failure_classes'] = ck.summary()
+    return res
+
+
+def _one_history(ck, src, hname, steps, key, doc, fmt, texts, case):
+    stream = '-stream' if src.group == 'stringio' else ''
+    src.put(texts['doc' + stream])
+    current = doc                               # the document the source holds
+    convs = {}
+    results = []                                # (step label, document, text, loaded snapshot)
+    done = []                                   # labels of the library calls made so far
+    target = os.path.join(case, 'out', 'o.xml')
+    refused = 'JSON' if fmt == 'XML' else 'XML'
+    for si, step in enumerate([('new', 0)] + steps, -1):
+        op = step[0]
+        if op == 'rewrite':
+            current = HIST_OTHER
+            src.put(texts['other' + stream])
+            continue
+        if op == 'reposition':
+            src.reposition()
+            continue
+        vc = convs.get(step[1])
+        label = '%s by converter %d' % ({'convert': 'convert(%r)' % fmt, 'write': 'write_to_file(.., %r)' % fmt,
+                                         'str': 'str()', 'refused': 'convert(%r)' % refused,
+                                         'new': 'VersionConverter(source)'}[op], step[1] + 1)
+        wit = {'doc': doc if current is doc else {'first': doc, 'then': HIST_OTHER}, 'format': fmt, 'source': src.kind,
+               'history': hname, 'steps': [list(s) for s in steps], 'failing-step': si}
+        before = src.state()
+        if op == 'convert':
+            st, res = h.call(vc.convert, fmt)
+        elif op == 'write':
+            st, res = h.call(vc.write_to_file, target, fmt)
+        elif op == 'str':
+            st, res = h.call(str, vc)
+        elif op == 'new':
+            st, res = h.call(VersionConverter, src.obj)
+        else:
+            st, res = h.call(vc.convert, refused)
+        after = src.state()
+        when = 'first-call' if not done else 'after-' + '+'.join(done)
+        use = 'first-call' if not done else 'later-call'
+        for comp in sorted(before):
+            if before[comp] != after[comp]:
+                shown = (before[comp], after[comp]) if comp != 'content' or src.group != 'stringio' else \
+                    (len(before[comp] or ''), None if after[comp] is None else len(after[comp]))
+                ck.fail('source-unchanged', '%s-%s:%s-source' % (src.group, comp, fmt.lower()), wit,
+                        '%s source in %s, %s, %s: %s of the source was %r before and is %r after the call'
+                        % (src.kind, fmt, when, label, comp, shown[0], shown[1]))
+        if before != after:
+            # the caller restores the source, so that the rest of the history is judged on its own
+            if src.group == 'stringio' and not src.obj.closed and after['content'] == before['content']:
+                src.obj.seek(before['position'])
+            else:
+                return
+        if op == 'new':
+            if st == 'exc':
+                if not src.optional:
+                    ck.fail('converts', '%s:converter-construction' % src.kind, wit,
+                            '%s source in %s: VersionConverter(source) raised %s: %s'
+                            % (src.kind, fmt, type(res).__name__, res))
+                return
+            convs[step[1]] = res
+            continue
+        done.append(op)
+        if op in ('str', 'refused'):
+            continue                            # (the statement says nothing about their outcome)
+        if st == 'exc':
+            if not src.optional:                # no documented kind of input: refusing it is allowed
+                ck.fail('converts' if op == 'convert' else 'writes', '%s:%s' % (src.kind, use), wit,
+                        '%s source in %s, %s: %s raised %s: %s' % (src.kind, fmt, when, label, type(res).__name__, res))
+            continue
+        if op == 'convert':
+            out = res
+            if not isinstance(out, str) or '<odML' not in out:
+                ck.fail('converts', 'no-output:%s:%s' % (src.kind, use), wit,
+                        '%s, %s: convert returned %r' % (src.kind, when, out))
+                continue
+        else:
+            got = sorted(os.listdir(os.path.join(case, 'out')))
+            if got != ['o.xml']:
+                ck.fail('writes-only-target', '%s:%s' % (src.kind, use), wit,
+                        '%s, %s: files in the target directory after write_to_file(%r): %r' % (src.kind, when, target, got))
+                continue
+            file_load = h.call(lambda: XMLReader(ignore_errors=False, show_warnings=False).from_file(target))
+            with open(target, 'rb') as f:
+                raw = f.read()
+            try:
+                out = _normal_decl(raw.decode('utf-8'))
+            except UnicodeDecodeError as exc:
+                ck.fail('written-file-loads', 'not-utf-8:%s' % src.kind, wit, 'written file declares UTF-8: %r' % exc)
+                continue
+            os.remove(target)
+        text = _normal(out)
+        stale = [plabel for plabel, pdoc, ptext, _ in results if pdoc is not current and ptext == text]
+        if stale:
+            # (no generated document equals HIST_OTHER, so this is the result for the content the source held before)
+            ck.fail('current-content-converted', 'source-content-replaced-between-conversions:%s' % src.group, wit,
+                    '%s source in %s: %s, made after the caller replaced the content of the source, is the result of %s '
+                    'for the former content' % (src.kind, fmt, label, stale[0]))
+            continue
+        keep = {}
+        check_case(ck, current, fmt, 'stringio' if src.group == 'stringio' else 'file', out, list(vc.conversion_log),
+                   wit, keep)
+        if 'loaded' not in keep:
+            continue                            # (reported by check_case under the clause that explains it)
+        if op == 'write' and file_load[0] == 'exc':
+            ck.fail('written-file-loads', 'text-loads-file-does-not', wit,
+                    '%s, %s: the text of the written file loads, the file does not: %r' % (src.kind, when, file_load[1]))
+            continue
+        for plabel, pdoc, ptext, ploaded in results:
+            if pdoc is not current or ptext == text:
+                continue
+            d = h.diff(h.snap(ploaded, ids=False, parent=False), h.snap(keep['loaded'], ids=False, parent=False))
+            if d:
+                ck.fail('repeatable', '%s:%s' % (hname, src.group), wit,
+                        '%s: %s and %s of the same source content differ: %s' % (src.kind, plabel, label, d))
+                break
+        results.append((label, current, text, keep['loaded']))
+
